@@ -683,3 +683,34 @@ def c10k(ctx):
     for o in sub.obs:
         (ctx.ok if o.status == 'ok' else ctx.bad)('%s:%s' % (o.rule, o.construct), o.msg, o.where)
     ctx.stats['functions'] |= sub.stats['functions']
+
+
+@rule('C10.l', floor=2)
+def c10l(ctx):
+    """pixels well inside the permitted area keep their content: after the forbidden part was overwritten (mask_image, C10.j) the tile is
+    put on a fresh canvas.  On a transparent (RGBA) canvas that must be alpha compositing; `canvas.paste(img, pos, img)` -- the image as
+    its own mask -- weights every pixel with its alpha a second time and mixes its colour with the canvas: semi-transparent content
+    inside the permitted area is changed.  paste-with-itself is only left for canvases without alpha (the image is flattened onto the
+    background colour there, which is the composition)"""
+    fn = ctx.fn('mapproxy/image/mask.py:mask_image_source_from_coverage')
+    g = fn.cfg
+    self_masked = [(n, x) for n, x in g.find(lambda x: isinstance(x, ast.Call) and isinstance(x.func, ast.Attribute) and x.func.attr == 'paste' and x.args)
+                   if keyword(x, 'mask', 2) is not None and unparse(keyword(x, 'mask', 2)) == unparse(x.args[0])]
+    comps = g.find(lambda x: is_call(x, 'Image.alpha_composite'))
+    rgba = lambda at: at.op == '==' and '.mode' in at.text and "'RGBA'" in at.text
+    def only_without_alpha(n, x):
+        """not on an RGBA canvas -- or in the else branch of `canvas is RGBA and <the library can composite>`"""
+        if g.guarded(n, rgba, False):
+            return True
+        iff = enclosing(x, ast.If)
+        if iff is None or not any(inside(x, s_) or x is s_ for s_ in iff.orelse):
+            return False
+        ats = implied(iff.test, True)
+        return any(rgba(at) and p is True for at, p in ats) and \
+            all((rgba(at) and p is True) or (p is True and at.op is None and at.mentions(lambda y: is_call(y, 'hasattr'))) for at, p in ats)
+    ok = all(only_without_alpha(n, x) for n, x in self_masked) and bool(comps) and all(g.guarded(n, rgba, True) for n, x in comps)
+    ctx.check(ok, 'mask_image_source_from_coverage:composited-on-transparent-canvas',
+              'on an RGBA canvas the clipped image is alpha-composited; paste-with-itself only on canvases without alpha', fn,
+              fail='the clipped tile is pasted onto a transparent canvas with itself as mask: semi-transparent pixels inside the permitted area are altered')
+    res = [x for x in fn.walk() if is_call(x, 'ImageSource')]
+    ctx.check(bool(res) and all(same(x.args[0], 'result') for x in res), 'mask_image_source_from_coverage:returns-canvas', 'the composed canvas is what is returned', fn)
